@@ -263,6 +263,81 @@ static void converge_run(Json& js, vh::Rng& rng) {
       .num("err_milli", milli(mis, 1e-6)).end();
 }
 
+// LMS / NLMS against the textbook recursion carried in long double, sample by sample over a short horizon, with random
+// framings and random lock / unlock phases (locked samples still move the delay line but must not touch the weights or
+// anything the later updates depend on):
+//   y = w^T u;  e = d - y;  LMS: w <- leak w + mu e conj(u);  NLMS: w <- leak w + mu e conj(u) / (u^H u + eps)
+template<class T>
+static void ref_run(Json& js, vh::Rng& rng) {
+    const int len = (int)rng.range(2, 16);
+    const bool nlms = rng.range(0, 2) != 0;
+    static const double LEAK[] = {1.0, 1.0, 0.999, 0.95};
+    const double leak = LEAK[rng.range(0, 3)];
+    const double scale = std::pow(10.0, rng.range(-2, 2));
+    const double mu = nlms ? 0.1 + 1.3 * rng.unif() : (0.02 + 0.2 * rng.unif()) / (len * scale * scale * (Tr<T>::cplx ? 2 : 1));
+    LmsFilter<T> f(len, mu, nlms ? LmsType::NLMS : LmsType::LMS, leak);
+    std::vector<LC> w(len, LC(0, 0)), u(len, LC(0, 0));   // u[0] newest
+    const long N = rng.range(60, 300);
+    long done = 0, locked_samples = 0;
+    bool locked = false;
+    double worst_w = 0, worst_y = 0;
+    if (rng.range(0, 3) == 0) {   // locked from the very first sample
+        locked = true;
+        f.set_lock_coeffs(true);
+    }
+    while (done < N) {
+        if (rng.range(0, 3) == 0) {
+            locked = !locked;
+            f.set_lock_coeffs(locked);
+        }
+        const int fl = (int)std::min<long>(N - done, rng.range(1, 40));
+        base_array<T> x(fl), d(fl);
+        for (int i = 0; i < fl; ++i) {
+            x[i] = Tr<T>::mk(scale * rng.gauss(), Tr<T>::cplx ? scale * rng.gauss() : 0.0);
+            d[i] = Tr<T>::mk(scale * rng.gauss(), Tr<T>::cplx ? scale * rng.gauss() : 0.0);
+        }
+        const auto r = f.process(x, d);
+        LD ymax = 0;
+        double fy = 0;
+        for (int k = 0; k < fl; ++k) {
+            for (int i = len - 1; i > 0; --i) {
+                u[i] = u[i - 1];
+            }
+            u[0] = LC(Tr<T>::re(x[k]), Tr<T>::im(x[k]));
+            LC y = 0;
+            LD pu = 0;
+            for (int i = 0; i < len; ++i) {
+                y += w[i] * u[i];
+                pu += std::norm(u[i]);
+            }
+            const LC e = LC(Tr<T>::re(d[k]), Tr<T>::im(d[k])) - y;
+            ymax = std::max<LD>(ymax, std::abs(y));
+            fy = std::max(fy, (double)std::abs(LC(Tr<T>::re(r.y[k]), Tr<T>::im(r.y[k])) - y));
+            if (locked) {
+                ++locked_samples;
+                continue;
+            }
+            const LD norm = nlms ? pu + (LD)eps() : 1.0L;
+            for (int i = 0; i < len; ++i) {
+                w[i] = w[i] * (LD)leak + (LD)mu * e * std::conj(u[i]) / norm;
+            }
+        }
+        const auto c = f.coeffs();   // c[0] weighs the newest sample
+        LD wmax = 1e-300L;
+        for (int i = 0; i < len; ++i) {
+            wmax = std::max<LD>(wmax, std::abs(w[i]));
+        }
+        for (int i = 0; i < len; ++i) {
+            worst_w = std::max(worst_w, (double)(std::abs(LC(Tr<T>::re(c[i]), Tr<T>::im(c[i])) - w[i]) / wmax));
+        }
+        worst_y = std::max(worst_y, fy / (double)std::max<LD>(ymax, scale));
+        done += fl;
+    }
+    js.begin("Resid").str("clause", "C12.ref-recursion").str("kind", nlms ? "nlms" : "lms").boolean("cplx", Tr<T>::cplx).num("len", len)
+      .num("p1_milli", (long)std::min(1e9, mu * 1000)).num("p2_milli", (long)(leak * 1000)).num("N", N).num("locked", locked_samples)
+      .num("err_milli", milli(std::max(worst_w, worst_y), 1e-8)).end();
+}
+
 // real RLS = exponentially weighted, diagonally regularised least squares (P(0) = load * I)
 static void rls_ls_run(Json& js, vh::Rng& rng) {
     const int len = (int)rng.range(2, 8);
@@ -362,6 +437,10 @@ int main(int argc, char** argv) {
             }
             rls_ls_run(js, rng);
             rls_ls_run(js, rng);
+            for (int q = 0; q < 6; ++q) {
+                ref_run<real_t>(js, rng);
+                ref_run<cmplx_t>(js, rng);
+            }
         } else {
             return 3;
         }
